@@ -379,7 +379,7 @@ def run_case(case, acc=None):
 
 
 def shards(tier):
-    n = 110 if tier == "quick" else 2500
+    n = 350 if tier == "quick" else 4000
     return [{"n": n} for _ in range(16)]
 
 
